@@ -73,7 +73,7 @@ static bool check_container(Reporter& R, const std::string& key, const char* for
 template <typename U, typename T>
 static void unit_type_runtime(Reporter& R, const char* tname, uint64_t tindex) {
   const auto& units = Enumerators<U>::get();
-  const int K = static_cast<int>(g_args->n("values", g_args->thorough() ? 40 : 2));
+  const int K = static_cast<int>(g_args->n("values", g_args->thorough() ? 40 : 4));
   long long nid = 0;
   uint64_t pi = 0;
   for (auto& pf : units) {
@@ -241,7 +241,7 @@ static void quantity_entry(Reporter& R, const char* name, uint64_t qindex) {
     constexpr U S = PhQ::Standard<U>;
     long long nid = 0;
     const auto& units = Enumerators<U>::get();
-    const int K = static_cast<int>(g_args->n("values", g_args->thorough() ? 40 : 2));
+    const int K = static_cast<int>(g_args->n("values", g_args->thorough() ? 40 : 4));
     Rng rng(mix(mix(g_args->seed, 0xC02E), mix(qindex, Num<T>::idx)));
     const std::string base = std::string("C02|quantity=") + name + "|" + Num<T>::name;
     R.crumb(base);
